@@ -17,6 +17,11 @@
 (*   "fixed"   Content-Length given by the application          -> "length"                    *)
 (*   "stream"  pieces without a length, request was HTTP/1.1    -> "chunked"                   *)
 (*   "empty"   no body at all                                   -> "chunked" or "length" (0)   *)
+(*   "bodiless" status 204 or 304, or the reply to a HEAD request: ends with the header section *)
+(*             whatever its headers announce (a Content-Length describes the body that is not  *)
+(*             sent)                                            -> "length" (0); a server that *)
+(*             announces chunked coding for it and sends the empty chunked body, and a client  *)
+(*             that consumes it, agree as well                  -> "chunked"                   *)
 (* A shape says what the client must receive, not how the application hands it over: the body  *)
 (* iterable may have one or several items, empty items anywhere (PEP 3333: "not ready yet"),   *)
 (* may be a list or a generator, part of the body may go through the write() callable, an      *)
@@ -57,6 +62,7 @@ NoBuf == [partial |-> FALSE, fin |-> FALSE]
 Delims(shape) == CASE shape = "fixed" -> {"length"}
                    [] shape = "stream" -> {"chunked"}
                    [] shape = "empty" -> {"chunked", "length"}
+                   [] shape = "bodiless" -> {"chunked", "length"}
 
 Init == /\ shapes \in [1..N -> Shapes]
         /\ sub = 0 /\ sent = 0 /\ waited = FALSE /\ responses = <<>>
